@@ -247,6 +247,8 @@ def run(ctx):
                 root = materialise(os.path.join(base, f"L{li}"), loc, files, broken)
                 given = None
                 spell = ctx.rng.choice(["canonical", "canonical", "symlink", "dotdot"]) if li > 0 else "canonical"
+                if i == 0 and loc == "generated/ws":
+                    spell = "canonical"       # (the directory name must be part of the path the scanner walks)
                 if spell == "symlink":
                     # the editor's root is a link that lives under a directory with an ignored name
                     ld = os.path.join(base, f"L{li}", "links", ctx.rng.choice(["build", "venv", "dist", "plainlinks"]))
